@@ -40,7 +40,7 @@ TamperCases ==
 \* C12: which conjunct of Sat fails
 UnsatC == {"mid=lim", "mid=lim+1", "mid=2^16", "mid>=2^16,biglim", "lim=mid+2^16+1", "lim=2^17", "lim=0", "mid=p-1",
            "idx=cap", "idx=2^32", "idx=2^63", "path19", "path21", "path0", "bits19", "bit=2", "bit=255",
-           "wtrunc1", "wtrunc40", "wappend1", "reqlen0", "reqlen31", "reqlen143", "reqlen-1", "siglen+1", "siglen=2^32",
+           "wtrunc1", "wtrunc40", "wappend1", "widxlen+100", "widxlen-1", "widxlen+1", "widxlenmax", "widxlenmax-7", "widxlen2^32", "reqlen0", "reqlen31", "reqlen143", "reqlen-1", "siglen+1", "siglen=2^32",
            "siglen=max", "control"}
 UnsatCases == [cls : UnsatC, entry : EntryC]
 
